@@ -657,6 +657,18 @@ S('c18-f7-reverted', 'C18', F,
                         # the length is a don't-care too: unknown size
                         byte_count = None
 ''', '', 'R12-maybe-any')
+S('c18-f13-reverted', 'C18', F,
+  '''                    _regexp_as_a_group(self.until_marker)''',
+  '''                    self.until_marker.pattern''', 'R12-delimiter-group')
+S('c18-delimiter-group-without-flags', 'C18', F,
+  '''    return b"(?" + flags.encode('ascii') + b":" + regexp.pattern + b")"''',
+  '''    return b"(?:" + regexp.pattern + b")"''', 'R12-delimiter-group')
+S('c18-delimiter-group-not-closed-around', 'C18', F,
+  '''    return b"(?" + flags.encode('ascii') + b":" + regexp.pattern + b")"''',
+  '''    return b"(?" + flags.encode('ascii') + b":)" + regexp.pattern''', 'R12-delimiter-group')
+B('c18-benign-delimiter-group-inline', 'C18', F,
+  '''                    _regexp_as_a_group(self.until_marker)''',
+  '''                    _regexp_as_a_group(self.until_marker) + b""''')
 S('c18-marker-escape-dropped', 'C18', F,
   '''                    re.escape(self.until_marker)
                     if isinstance(self.until_marker, bytes) else''',
